@@ -5,6 +5,18 @@ ROOT = os.path.dirname(os.path.dirname(os.path.abspath(__file__)))
 
 # id -> (technique, level text, level note, design ref)
 CLAIMED = {
+ "C09": ("proptest over (forest, collapse choices, per-element options, short-write schedule); paired-run byte equality + reference header walk of the output",
+         "20 000 (quick) / 600 000 (thorough) generated documents are written in paired presentations (Full vs Start/End, deprecated vs option-based unknown size, explicit widths vs defaults, scripted short-write destination vs Vec); outputs must be byte-identical, explicit widths are read back with the reference header parser and ids/payloads must be unchanged.",
+         "trusted: ref_header walk; widths drawn from those that fit", "4.9"),
+ "C10": ("model-based proptest: generated valid call sequences, invariant checked after every call against a model of the open stack and the strict iterator over the destination",
+         "20 000 (quick) / 600 000 (thorough) call sequences; after each call: destination only grows and is a prefix of the final output; after a completed write with no known-size master open the destination parses to exactly the accepted tags (+ Ends of open unknown-size masters); nothing of an open known-size master is handed over; flush()/into_inner() closes and delivers everything.",
+         "trusted: the model in the harness, the iterator as a parser of the destination (anchored by C03/C06/C12), ref_header walk for offsets in the final output", "4.10"),
+ "C11": ("proptest specs × constructed chains × exhaustive enumeration of every spec element under every chain prefix, writer and reader; oracle = backtracking reference matcher ref_match (+ ref_closes for unknown-size chains)",
+         "3 000 (quick) / 100 000 (thorough) specifications, 5 chains each (instantiated from declared paths with boundary counts per placeholder, edited, random; unreachable chains opened through the unknown-size option), every element offered at every chain prefix: ~780 000 writer/reader decisions per quick run, confusion matrix in the evidence (disagreement cells must be 0).",
+         "trusted: ref_match (cross-checked against a brute-force enumerator in unit tests over 500 000 path/chain pairs), ref_closes; ambiguous (chain, tag) triples skipped and counted", "4.11"),
+ "C19": ("model-based proptest: valid call sequence with 1-3 contract-failing calls inserted; differential oracle against the run without the failing calls",
+         "30 000 (quick) / 1 M (thorough) sequences with failing calls of every documented kind inserted at generated positions; the failing call must return a non-I/O error, every other call must behave as in the reference run, the destination must stay a prefix of W(V) after every call and the final bytes must be identical.",
+         "trusted: ref_match to construct calls that must fail; the destination never fails", "4.19"),
  "C03": ("proptest over the reader input mix × tolerance × buffered set × capacity; oracle = reference header parser + reference payload decoders at the reported offsets (validity predicate + tiling invariant)",
          "60 000 (quick) / 2 M (thorough) inputs (valid, non-canonical, mutated, random, adversarial, mid-document) are read under random configurations; for every successful item up to the first error the id at the reported offset, the decoded value, the tiling of consecutive tags (inside Full items too) and the offsets of End/Full items are checked against the input bytes with an independent header parser and decoders.",
          "trusted: ref_header / ref_decode; a 0x00 byte read as raw id 0 under InvalidTagIds tolerance is accepted as its own class", "4.3"),
